@@ -17,7 +17,7 @@ import re._constants as _sc
 import z3
 
 from . import core
-from .core import Unsupported, branch
+from .core import Unsupported, branch, SEnum
 from .strings import SChar, TStr, LazyIntStr, coerce, wrap
 
 MAX_DERIVS = 4000
@@ -528,6 +528,8 @@ class SPattern:
 
     # ---- public API
     def match(self, subject, pos=0):
+        if isinstance(subject, SEnum):
+            subject = subject.concrete()
         if self._concrete(subject):
             return self.real.match(subject, pos)
         t = self._items(subject)
@@ -538,6 +540,8 @@ class SPattern:
         return self._decide(t, self._derivs(t, [pos]))
 
     def fullmatch(self, subject):
+        if isinstance(subject, SEnum):
+            subject = subject.concrete()
         if self._concrete(subject):
             return self.real.fullmatch(subject)
         t = self._items(subject)
@@ -548,6 +552,8 @@ class SPattern:
         return self._decide(t, self._derivs(t, [0], full=True))
 
     def search(self, subject, pos=0):
+        if isinstance(subject, SEnum):
+            subject = subject.concrete()
         if self._concrete(subject):
             return self.real.search(subject, pos)
         t = self._items(subject)
@@ -560,6 +566,8 @@ class SPattern:
         return self._decide(t, self._derivs(t, range(pos, len(t.items) + 1)))
 
     def finditer(self, subject):
+        if isinstance(subject, SEnum):
+            subject = subject.concrete()
         if self._concrete(subject):
             yield from self.real.finditer(subject)
             return
@@ -578,6 +586,8 @@ class SPattern:
             p = m.end() if m.end() > m.start() else m.end() + 1
 
     def findall(self, subject):
+        if isinstance(subject, SEnum):
+            subject = subject.concrete()
         if self._concrete(subject):
             return self.real.findall(subject)
         out = []
@@ -591,6 +601,8 @@ class SPattern:
         return out
 
     def sub(self, repl, subject, count=0):
+        if isinstance(subject, SEnum):
+            subject = subject.concrete()
         if self._concrete(subject) and not isinstance(repl, (TStr, LazyIntStr)):
             return self.real.sub(repl, subject, count)
         if callable(repl):
@@ -615,6 +627,8 @@ class SPattern:
         raise Unsupported("subn")
 
     def split(self, subject, maxsplit=0):
+        if isinstance(subject, SEnum):
+            subject = subject.concrete()
         if self._concrete(subject):
             return self.real.split(subject, maxsplit)
         t = self._items(subject)
